@@ -297,6 +297,14 @@ def run(ctx):
     n_ns_ = _nsk(ctx, prog, eff, frozen=fz_)
     ctx.require(n_ns_ >= 75, 'only %d relative skips found' % n_ns_)
 
+    ctx.rule('PTR-SCALE', 'for memset / memcpy / psf_fread / psf_fwrite (size 1) whose buffer is P + K with P a pointer to elements wider than a byte, the byte length is not of the form N - K: '
+             'K would move the start by K * sizeof (*P) bytes while shortening the length by K bytes only (the zero-fill-after-a-short-read slip: the call runs past the end of the block)', floor=4)
+    from engine.ptrscale import ptr_scale
+    n_ps_ = ptr_scale(ctx, prog)
+    ctx.require(n_ps_ >= 4, 'only %d byte-count calls on a scaled pointer found' % n_ps_)
+    from engine.fixture import generic_fixture as _gfps
+    _gfps(ctx, [('PTR-SCALE', ptr_scale, 'bad_ptrscale')])
+
     ctx.rule('READF-ZERO', 'psf_binheader_readf clears the caller\'s target (`*ptr = 0` / memset (ptr, 0, n)) in every format arm before header_read fills it: after a short or failed read the '
              'parser sees zeros, never the previous chunk\'s bytes or uninitialised memory (LOOP-IO relies on exactly this to conclude that parser loops notice a dead stream)', floor=9)
     from engine.arms import switch_arm_stmts as _sas
